@@ -2,10 +2,10 @@ package main
 
 import (
 	"fmt"
-	"os"
 	"go/constant"
 	"go/token"
 	"go/types"
+	"os"
 	"regexp"
 	"sort"
 	"strings"
@@ -1133,7 +1133,7 @@ type gramRootResult struct {
 	valid    int
 	byClass  map[string][]string // problem class -> findings
 	problems []string            // grammar findings attributed to this root
-	lost     []string // members written, then nothing returned
+	lost     []string            // members written, then nothing returned
 	ppos     string
 	lpos     string
 }
